@@ -11,6 +11,9 @@
 //! * udp: 1-4 local UDP clients x tagged echo targets through the UDP remotes or SOCKS5 UDP
 //!   associations; every reply at exactly the originating socket, from the address it sent to,
 //!   payload unmodified, (SOCKS5) behind a well-formed RFC 1928 header.
+//!   One-way streams (`oneway=`): a client only SENDS, a datagram every few seconds, for longer than two
+//!   periods of the client's prune task while the target is silent; then the target answers the last
+//!   datagram and one more exchange follows: the answer must arrive like any other reply.
 //! * maps: the client's two UDP maps against the Lean model under the paused clock (maps.rs).
 //!
 //! Every wait is bounded; a hang is a failure.  A failing scenario is run again on its own in a
@@ -28,7 +31,7 @@ use pvhf::{Args, Driver, FailKind, Report, Rng, Tier, Value, fnv, json};
 use std::sync::Arc;
 use std::time::{Duration, Instant};
 use tcp::{check_conn, run_conn, ConnObs, Entry, Mode, TcpScn, ALL_MODES, ENTRIES, MODES};
-use udp::{run_udp, UdpOutcome, UdpScn};
+use udp::{run_udp, OneWay, UdpOutcome, UdpScn};
 use world::{World, SLOTS};
 
 #[derive(Clone, Debug)]
@@ -311,8 +314,65 @@ fn random_udp(r: &mut Rng, socks: bool) -> UdpScn {
         replies: if r.chance(1, 4) { 2 } else { 1 },
         domain: socks && r.chance(1, 4),
         idle_ms: 0,
+        oneway: None,
         seed: r.next() % 1_000_000_000,
     }
+}
+
+/// One-way traffic that outlasts the idle timeout (`UDP_PRUNE_TIMEOUT`, 10 s; the client's prune task has the
+/// same period, so an entry that is no longer kept alive is gone at most two periods after its last
+/// refresh): a local client keeps sending, with gaps well below the timeout, while the target stays silent
+/// for more than two periods; then the target answers the last datagram, then one more exchange.  Every
+/// scenario of this family runs in a world of its own, concurrently with everything else.
+fn one_way_pass(r: &mut Rng, tier: Tier) -> Vec<Scn> {
+    let mk = |socks: bool, clients: usize, targets: &[usize], sizes: &[usize], replies: usize, domain: bool, seed: u64, ow: OneWay| {
+        Scn::Udp(UdpScn { socks, clients, targets: targets.to_vec(), sizes: sizes.to_vec(), replies, domain, idle_ms: 0, oneway: Some(ow), seed })
+    };
+    let ow = |ms: u64, gap_ms: u64, sizes: &[usize], streamers: usize, shared: bool, at_ms: Option<u64>| OneWay { ms, gap_ms, sizes: sizes.to_vec(), streamers, shared, at_ms };
+    let mut v = vec![
+        // the plain ones (the SOCKS5 line is also corpus/C01/reply-after-one-way-traffic.ops)
+        mk(true, 1, &[0], &[], 1, false, 7, ow(22_000, 2500, &[24], 1, false, None)),
+        mk(false, 1, &[0], &[], 1, false, 7, ow(22_000, 2500, &[24], 1, false, None)),
+        // two clients with an association each after an ordinary exchange; one streams, the other goes quiet
+        mk(true, 2, &[0, 1], &[24], 2, false, r.next() % 1_000_000, ow(21_000, 3000, &[100, 1400, 3], 1, false, None)),
+    ];
+    if tier == Tier::Thorough {
+        let mut seed = || r.next() % 1_000_000;
+        v.extend([
+            // two local sockets on ONE association: one streams / both stream
+            mk(true, 2, &[0], &[24], 1, false, seed(), ow(22_000, 2500, &[24], 1, true, None)),
+            mk(true, 2, &[0, 1], &[], 1, false, seed(), ow(22_000, 2500, &[64, 10], 2, true, None)),
+            // two associations, both stream, two replies each
+            mk(true, 2, &[0, 1], &[], 2, false, seed(), ow(22_000, 2000, &[24, 508], 2, false, None)),
+            // domain target, IPv6 target, payload sizes incl. the boundary ones
+            mk(true, 1, &[1], &[], 1, true, seed(), ow(22_000, 2500, &[24], 1, false, None)),
+            mk(true, 2, &[0, 1], &[16], 1, true, seed(), ow(21_500, 3000, &[1400, 11], 1, false, None)),
+            mk(true, 1, &[2], &[], 1, false, seed(), ow(22_000, 2500, &[24, 0], 1, false, None)),
+            mk(true, 1, &[0], &[], 1, false, seed(), ow(22_000, 2500, &[1400, 0, 1, 3, 4, 508, 1399], 1, false, None)),
+            // the answer just before / just after a tick of the prune task
+            mk(true, 1, &[0], &[], 1, false, seed(), ow(21_000, 2500, &[24], 1, false, Some(9_700))),
+            mk(true, 1, &[0], &[], 1, false, seed(), ow(21_000, 2500, &[24], 1, false, Some(150))),
+            mk(true, 1, &[1], &[12], 2, false, seed(), ow(21_000, 2000, &[100], 1, false, Some(9_950))),
+            // dense and sparse streams; between one and two periods; three periods
+            mk(true, 1, &[0], &[], 1, false, seed(), ow(22_000, 400, &[24, 1200], 1, false, None)),
+            mk(true, 1, &[0], &[], 1, false, seed(), ow(23_000, 6000, &[24], 1, false, None)),
+            mk(true, 1, &[0, 1], &[], 1, false, seed(), ow(12_500, 2500, &[24], 1, false, None)),
+            mk(true, 1, &[0], &[], 1, false, seed(), ow(32_000, 3500, &[48], 1, false, None)),
+            // fixed UDP remotes
+            mk(false, 2, &[0, 1], &[24], 1, false, seed(), ow(22_000, 2500, &[24, 1400], 1, false, None)),
+            mk(false, 2, &[0, 1], &[], 2, false, seed(), ow(22_000, 3000, &[10, 0, 700], 2, false, None)),
+            mk(false, 1, &[2], &[], 1, false, seed(), ow(22_000, 2500, &[24], 1, false, None)),
+            mk(false, 1, &[0], &[], 1, false, seed(), ow(21_000, 2500, &[24], 1, false, Some(9_700))),
+            mk(false, 1, &[1], &[], 1, false, seed(), ow(21_000, 2500, &[24], 1, false, Some(150))),
+            mk(false, 1, &[0], &[], 1, false, seed(), ow(23_000, 6000, &[1400], 1, false, None)),
+        ]);
+    }
+    v
+}
+
+/// Scenarios that mostly wait (idle time, one-way streams): each gets a world and a thread of its own.
+fn is_long(s: &Scn) -> bool {
+    matches!(s, Scn::Udp(u) if u.idle_ms >= 3000 || u.oneway.is_some())
 }
 
 /// The fixed pass: every entry point kind with every close order once, plus the UDP matrix.
@@ -349,15 +409,15 @@ fn fixed_pass(r: &mut Rng, tier: Tier) -> Vec<Scn> {
     }
     // UDP
     for socks in [false, true] {
-        v.push(Scn::Udp(UdpScn { socks, clients: 1, targets: vec![0], sizes: vec![0, 1, 3, 4, 10, 1400], replies: 1, domain: false, idle_ms: 0, seed: r.next() % 1_000_000 }));
-        v.push(Scn::Udp(UdpScn { socks, clients: 4, targets: vec![0, 1], sizes: vec![10, 0, 1399, 64], replies: 2, domain: false, idle_ms: 0, seed: r.next() % 1_000_000 }));
-        v.push(Scn::Udp(UdpScn { socks, clients: 2, targets: vec![2], sizes: vec![12, 0, 700], replies: 1, domain: false, idle_ms: 0, seed: r.next() % 1_000_000 }));
+        v.push(Scn::Udp(UdpScn { socks, clients: 1, targets: vec![0], sizes: vec![0, 1, 3, 4, 10, 1400], replies: 1, domain: false, idle_ms: 0, oneway: None, seed: r.next() % 1_000_000 }));
+        v.push(Scn::Udp(UdpScn { socks, clients: 4, targets: vec![0, 1], sizes: vec![10, 0, 1399, 64], replies: 2, domain: false, idle_ms: 0, oneway: None, seed: r.next() % 1_000_000 }));
+        v.push(Scn::Udp(UdpScn { socks, clients: 2, targets: vec![2], sizes: vec![12, 0, 700], replies: 1, domain: false, idle_ms: 0, oneway: None, seed: r.next() % 1_000_000 }));
     }
-    v.push(Scn::Udp(UdpScn { socks: true, clients: 3, targets: vec![0, 1], sizes: vec![16, 2, 1400], replies: 1, domain: true, idle_ms: 0, seed: r.next() % 1_000_000 }));
+    v.push(Scn::Udp(UdpScn { socks: true, clients: 3, targets: vec![0, 1], sizes: vec![16, 2, 1400], replies: 1, domain: true, idle_ms: 0, oneway: None, seed: r.next() % 1_000_000 }));
     // one SOCKS5 UDP client socket, an IPv4 and an IPv6 target (and the same through two UDP remotes, where each
     // listener has its own flow id)
-    v.push(Scn::Udp(UdpScn { socks: true, clients: 1, targets: vec![0, 2], sizes: vec![16, 17], replies: 1, domain: false, idle_ms: 0, seed: 3 }));
-    v.push(Scn::Udp(UdpScn { socks: false, clients: 2, targets: vec![0, 2], sizes: vec![16, 17], replies: 1, domain: false, idle_ms: 0, seed: 4 }));
+    v.push(Scn::Udp(UdpScn { socks: true, clients: 1, targets: vec![0, 2], sizes: vec![16, 17], replies: 1, domain: false, idle_ms: 0, oneway: None, seed: 3 }));
+    v.push(Scn::Udp(UdpScn { socks: false, clients: 2, targets: vec![0, 2], sizes: vec![16, 17], replies: 1, domain: false, idle_ms: 0, oneway: None, seed: 4 }));
     // dialogues after a half-close, every entry point kind
     v.extend(half_close_pass(r, tier));
     v
@@ -478,7 +538,8 @@ fn main() {
         std::process::exit(replay(p));
     }
     let rule = "scenario = 1-4 concurrent local TCP connections (entry point kind, close order incl. dialogues after a half-close, payload sizes, chunkings) or one UDP \
-scenario (1-4 local UDP clients x tagged echo targets x payload sizes, via UDP remotes or SOCKS5 UDP associations) run in real time \
+scenario (1-4 local UDP clients x tagged echo targets x payload sizes, via UDP remotes or SOCKS5 UDP associations; also after an idle \
+time, and one-way streams longer than two idle timeouts that the target answers only at the end) run in real time \
 through the real client_main_inner and the real server on loopback; plus map-operation sequences on the real client maps under the \
 paused clock compared with the Lean model. Non-trivial = at least one byte / one datagram crossed the tunnel, or a close / refusal \
 was propagated; distinct by scenario text";
@@ -550,41 +611,57 @@ was propagated; distinct by scenario text";
     for i in 0..n_udp {
         scs.push(Scn::Udp(random_udp(&mut r2, i % 2 == 1)));
     }
-    // the idle scenario (forwarder time-out on the server, pruning on the client) runs on its own
-    let idle: Vec<Scn> = [false, true]
-        .iter()
-        .filter(|_| only.as_deref() != Some("maps") && !args.flag("--no-idle"))
-        .map(|socks| Scn::Udp(UdpScn { socks: *socks, clients: 2, targets: vec![0, 1], sizes: vec![24], replies: 1, domain: false, idle_ms: 10_600, seed: 5 }))
-        .collect();
+    // the idle scenario (forwarder time-out on the server, pruning on the client) and the one-way streams
+    let mut waiting: Vec<Scn> = vec![];
+    if only.as_deref() != Some("maps") && !args.flag("--no-idle") {
+        for socks in [false, true] {
+            waiting.push(Scn::Udp(UdpScn { socks, clients: 2, targets: vec![0, 1], sizes: vec![24], replies: 1, domain: false, idle_ms: 10_600, oneway: None, seed: 5 }));
+        }
+        if !args.flag("--no-one-way") {
+            waiting.extend(one_way_pass(&mut rng.fork(3), args.tier));
+        }
+    }
+    scs.extend(waiting);
     let width = args.opt("--width").and_then(|w| w.parse().ok()).unwrap_or(width);
     {
         let mut seen = std::collections::HashSet::new();
         scs.retain(|s| seen.insert(s.line()));
     }
-    let idle: Vec<Scn> = idle.into_iter().filter(|s| !scs.iter().any(|x| x.line() == s.line())).collect();
-    // distribute over worlds: consecutive scenarios share a world
+    if let Some(f) = args.opt("--filter") {
+        scs.retain(|s| s.line().contains(f));
+    }
+    // distribute over worlds: the scenarios that mostly wait get a world each and are started first (longest
+    // first), on threads of their own; of the others, consecutive scenarios share a world
     let per_world = 6usize;
     let mut jobs: Vec<(Vec<usize>, bool)> = vec![];
-    for (wi, chunk) in (0..scs.len()).collect::<Vec<_>>().chunks(per_world).enumerate() {
+    let mut long: Vec<usize> = (0..scs.len()).filter(|i| is_long(&scs[*i])).collect();
+    let expected_ms = |s: &Scn| match s {
+        Scn::Udp(u) => u.idle_ms + u.oneway.as_ref().map_or(0, |o| o.ms + o.at_ms.map_or(0, |_| 5000)),
+        Scn::Tcp(_) => 0,
+    };
+    long.sort_by_key(|i| std::cmp::Reverse(expected_ms(&scs[*i])));
+    for (k, i) in long.iter().enumerate() {
+        // in the thorough tier every fifth of them on the current-thread runtime
+        jobs.push((vec![*i], !(args.tier == Tier::Thorough && k % 5 == 4)));
+    }
+    let n_long = long.len();
+    let short: Vec<usize> = (0..scs.len()).filter(|i| !is_long(&scs[*i])).collect();
+    for (wi, chunk) in short.chunks(per_world).enumerate() {
         jobs.push((chunk.to_vec(), wi % 3 != 2));
     }
-    let base = scs.len();
+    let threads = (width + n_long).min(jobs.len()).max(1);
     // the server part of the model on the idle scenario: is a datagram for a finished forwarder forwarded or dropped?
     let model_after_idle: Option<bool> = drv.as_mut().map(|d| {
         let r = d.batch(&["srv-reset".to_string(), "srv-recv 7 01 53 aa".to_string(), "srv-expire 0".to_string(), "srv-recv 7 01 53 bb".to_string()]);
         r[3].starts_with("to-target")
     });
-    for (i, s) in idle.iter().enumerate() {
-        scs.push(s.clone());
-        jobs.push((vec![base + i], true));
-    }
     let mut outcomes: Vec<Option<(Outcome, bool)>> = (0..scs.len()).map(|_| None).collect();
     {
         let scs_ref = &scs;
         let next = std::sync::atomic::AtomicUsize::new(0);
         let results = std::sync::Mutex::new(vec![]);
         std::thread::scope(|s| {
-            for _ in 0..width.min(jobs.len()).max(1) {
+            for _ in 0..threads {
                 s.spawn(|| loop {
                     let j = next.fetch_add(1, std::sync::atomic::Ordering::SeqCst);
                     let Some((idxs, mt)) = jobs.get(j) else { break };
@@ -609,6 +686,8 @@ was propagated; distinct by scenario text";
     }
     let mut reruns = 0;
     let mut unreproduced: Vec<String> = vec![];
+    let mut confirmed_keys = std::collections::HashSet::new();
+    let mut same_again: Vec<String> = vec![];
     let mut infra = 0;
     let mut skipped = 0usize;
     let (mut hdr_remote, mut hdr_client, mut hdr_other) = (0usize, 0usize, 0usize);
@@ -646,7 +725,11 @@ was propagated; distinct by scenario text";
                 }
             }
         }
-        if !bad.is_empty() {
+        if !bad.is_empty() && is_long(sc) && bad.iter().all(|(k, _)| confirmed_keys.contains(k)) {
+            // a scenario that mostly waits, failing in a way that has already been confirmed and reported on
+            // another scenario: not run again (each re-run costs its whole waiting time)
+            same_again.push(format!("{} :: {}", bad[0].0, sc.line()));
+        } else if !bad.is_empty() {
             // shrink / confirm: each failing connection alone, then the whole scenario alone
             reruns += 1;
             let mut confirmed: Option<(Scn, Vec<(String, String)>, Outcome)> = None;
@@ -672,6 +755,7 @@ was propagated; distinct by scenario text";
             match confirmed {
                 Some((csc, b, o)) => {
                     for (k, d) in &b {
+                        confirmed_keys.insert(k.clone());
                         rep.fail(
                             FailKind::Impl,
                             k,
@@ -730,6 +814,15 @@ was propagated; distinct by scenario text";
                 if u.idle_ms > 0 {
                     rep.count("udp/after-idle");
                 }
+                if let Some(ow) = &u.oneway {
+                    rep.count(&format!("udp/after-one-way/{}", if u.socks { "socks5" } else { "udp-remote" }));
+                    if ow.shared {
+                        rep.count("udp/after-one-way/several-sockets-on-one-association");
+                    }
+                    if ow.at_ms.is_some() {
+                        rep.count("udp/after-one-way/answer-placed-relative-to-prune-tick");
+                    }
+                }
                 hdr_remote += o.hdr_remote;
                 hdr_client += o.hdr_client;
                 hdr_other += o.hdr_other;
@@ -749,6 +842,9 @@ was propagated; distinct by scenario text";
     ));
     if skipped * 10 > scs.len() {
         rep.fail(FailKind::Model, "harness:infrastructure", &format!("{skipped} of {} scenarios could not be run (ports / bind / world start-up); see notes", scs.len()), json!({}));
+    }
+    if !same_again.is_empty() {
+        rep.notes.push(format!("{} more waiting scenario(s) failed in a way already confirmed on another scenario and were not run again, e.g. {}", same_again.len(), same_again[0]));
     }
     for u in unreproduced.iter().take(8) {
         rep.notes.push(format!("failed once, not reproduced in 3 runs alone: {u}"));
